@@ -1,4 +1,5 @@
 \* one user contract, one slot, values {0,1,2}, two Cairo-0 classes, <= 3 blocks, diffs of <= 3 entries
+\* measured: 59 754 distinct states (FixH4 = TRUE), ~35 s on 4 workers
 CONSTANTS
   Users = {"c1"}
   Sys = {}
